@@ -353,7 +353,7 @@ func (env *SpecEnv) index(x, i *Val, e Expr) *Val {
 			env.fail("index of slice with unknown element type in %s", e)
 		}
 		_, comp := ex.elemsComp(env.cur, sl.Elem())
-		return scalar(mkSelect(mkSelect(comp, sArr(x.T)), addT(sOff(x.T), i.T)), sl.Elem())
+		return scalar(mkSelect(mkSelect(comp, sArr(x.T)), idxT(sOff(x.T), i.T)), sl.Elem())
 	case SInt:
 		if mt, ok := x.Typ.Underlying().(*types.Map); ok {
 			has, v := ex.mapLoad(env.st, env.cur, mt, x.T, i.T)
